@@ -114,6 +114,12 @@ type Paralleler interface{ Parallel() int }
 // reported in minutes, not hours.  The verdict itself is always Coq's.
 type Suspecter interface{ Suspect(o interface{}) bool }
 
+// Timeouter provides the observation recorded for a case that did not finish within the case
+// timeout (the implementation hung); without it a hanging case aborts the whole run.
+type Timeouter interface{ TimeoutObs(c interface{}) interface{} }
+
+const caseTimeout = 90 * time.Second
+
 var props = map[string]Prop{}
 
 type caseRec struct {
@@ -221,7 +227,19 @@ func runCmd(args []string) int {
 		go func(i int) {
 			defer wg.Done()
 			defer func() { <-sem }()
-			recs[i].Obs = p.Run(recs[i].Case)
+			done := make(chan interface{}, 1)
+			go func() { done <- p.Run(recs[i].Case) }()
+			select {
+			case o := <-done:
+				recs[i].Obs = o
+			case <-time.After(caseTimeout):
+				if to, ok := p.(Timeouter); ok {
+					recs[i].Obs = to.TimeoutObs(recs[i].Case)
+				} else {
+					fmt.Fprintf(os.Stderr, "case %d did not finish within %v: %+v\n", i, caseTimeout, recs[i].Case)
+					os.Exit(3)
+				}
+			}
 			if sus != nil && sus.Suspect(recs[i].Obs) {
 				atomic.AddInt32(&suspects, 1)
 			}
